@@ -95,7 +95,7 @@ def profiles(draw):
     return p
 
 
-CALLS = ["colors", "colors_hex", "colors_hex_false", "name_version", "cell_size", "kitty", "iterm2", "auto_class", "AutoImage",
+CALLS = ["swap_toggle", "proc_start", "colors", "colors_hex", "colors_hex_false", "name_version", "cell_size", "kitty", "iterm2", "auto_class", "AutoImage",
          "from_file", "ratio_fixed", "ratio_dynamic"]
 
 
@@ -121,7 +121,16 @@ def cases(draw):
 
 # ------------------------------------------------------------------------------------ execution
 
+_ORIG_LOCKS = {}
+
+
 def reset_lib():
+    # undo the lock / cell-size-cache migration done by a previous case's Process.start()
+    if not _ORIG_LOCKS:
+        _ORIG_LOCKS.update(tty=U._tty_lock, cs_lock=U._cell_size_lock)
+    U._tty_lock = _ORIG_LOCKS["tty"]
+    U._cell_size_lock = _ORIG_LOCKS["cs_lock"]
+    U._cell_size_cache = [0] * 4
     TI.enable_queries()
     U._queries_enabled = True
     U._swap_win_size = False
@@ -174,6 +183,7 @@ def check_queries(c, rec):
     if not c["enabled"]:
         TI.disable_queries()
     enabled = c["enabled"]
+    swap = c["swap"]
     environ = c["environ"]
     timeout = U._query_timeout
     ctx = f"profile={p} win={c['win']} swap={c['swap']} enabled={enabled} env={environ}"
@@ -181,7 +191,23 @@ def check_queries(c, rec):
         for call in c["calls"]:
             t0, s0 = T.now, T.selects
             try:
-                if call == "colors":
+                if call == "swap_toggle":
+                    # toggled in the middle of a run (cached cell size at an unchanged terminal size)
+                    (TI.disable_win_size_swap if swap else TI.enable_win_size_swap)()
+                    swap = not swap
+                    got = exp = None
+                elif call == "proc_start":
+                    # the first Process.start() moves the library's locks and its cell-size cache to multi-process objects
+                    from multiprocessing import Process
+
+                    orig = U._process_start_wrapper.__wrapped__
+                    U._process_start_wrapper.__wrapped__ = lambda self, *a, **kw: None
+                    try:
+                        Process(target=print).start()
+                    finally:
+                        U._process_start_wrapper.__wrapped__ = orig
+                    got = exp = None
+                elif call == "colors":
                     got = U.get_fg_bg_colors()
                     exp = R.colors(p, enabled)
                 elif call == "colors_hex":
@@ -196,7 +222,7 @@ def check_queries(c, rec):
                 elif call == "cell_size":
                     got = U.get_cell_size()
                     got = got and tuple(got)
-                    exp = R.cell_size(p, c["win"], c["swap"], environ, enabled)
+                    exp = R.cell_size(p, c["win"], swap, environ, enabled)
                 elif call == "kitty":
                     got, exp = I.KittyImage.is_supported(), R.kitty_supported(p, environ, enabled)
                 elif call == "iterm2":
@@ -213,8 +239,9 @@ def check_queries(c, rec):
                     got, exp = type(im).__name__, R.auto_class(p, environ, enabled)
                     im.close()
                 else:
-                    cs = R.cell_size(p, c["win"], c["swap"], environ, enabled)
+                    cs = R.cell_size(p, c["win"], swap, environ, enabled)
                     mode = TI.AutoCellRatio.FIXED if call == "ratio_fixed" else TI.AutoCellRatio.DYNAMIC
+                    TI.AutoCellRatio.is_supported = None  # support is determined once (documented); judged afresh per call here
                     try:
                         TI.set_cell_ratio(mode)
                         got = ("ok", TI.get_cell_ratio())
@@ -268,7 +295,7 @@ def rt_cases(draw):
     c["profile"]["delays"] = [draw(st.sampled_from([0.0, 0.002, 0.01, 0.03])) for _ in range(3)]
     c["profile"]["da1"] = True  # a silent terminal would cost a full real-time timeout per query
     c["enabled"] = True
-    c["calls"] = c["calls"][:2]
+    c["calls"] = [x for x in c["calls"] if x not in ("swap_toggle", "proc_start")][:2] or ["colors"]
     return c
 
 
